@@ -4,7 +4,7 @@ from contracts import c14, enc
 LEVEL = "other"
 TRUSTED = ["Euler-type argument (balanced + connected => the spliced sub-walks are closed and no edge is left over) is NOT proved; it is decided by exhaustive bounded enumeration; conservation (no traversal invented) IS proved under that hypothesis"]
 ASSUMPTIONS = ["A3 round(x) within 1/2 of x"]
-EXPLANATION = ("Proved (PyVC, unbounded): the ENCODER AbstractWalkModelDiGraph._encode_walks adds exactly the rows of the walk formulation (one unit out of the source, conservation at inner nodes with integer multiplicities within the per-edge bound, one selected used in-edge per entered node, distances increasing along selected edges) for every assignment of the columns - the balanced-and-connected precondition of the reconstruction rests on these rows (plus a graph lemma that is not proved). Proved (PyVC, unbounded): the residual multigraph handed to the reconstruction contains, for every vertex, exactly round(sigma) copies of each out-neighbour (block structure, no counting axiom). "
+EXPLANATION = ("Proved (PyVC, unbounded): get_solution_walks returns one walk per layer, in layer order, each reconstructed from the residual graph of its own layer and from the solver values of exactly the edge variables; the ENCODER AbstractWalkModelDiGraph._encode_walks adds exactly the rows of the walk formulation (one unit out of the source, conservation at inner nodes with integer multiplicities within the per-edge bound, one selected used in-edge per entered node, distances increasing along selected edges) for every assignment of the columns - the balanced-and-connected precondition of the reconstruction rests on these rows (plus a graph lemma that is not proved). Proved (PyVC, unbounded): the residual multigraph handed to the reconstruction contains, for every vertex, exactly round(sigma) copies of each out-neighbour (block structure, no counting axiom). "
                "Bounded (exhaustive, no solver): the real reconstruction functions on every balanced connected multiplicity vector up to the stated size and EVERY ordering of the adjacency lists: "
                "the returned walk traverses each edge exactly its multiplicity; all-zero gives an empty walk.")
 
